@@ -20,8 +20,10 @@ func checkRelation(rc *RunCtx, ms *mainSim, cfg *mCfg, U []*Key, sigPrefix, when
 			want := o.expect(k)
 			for r := 0; r < repeat; r++ {
 				var got string
+				var wire []byte
 				if o.ln.Type == "tcp" {
 					res := ms.probeTCP(o.ln.Addr, k, nil)
+					wire = res.wire
 					if res.refused {
 						rc.Failf(sigPrefix+"listener-not-listening:tcp", "%s: configured TCP listener %s refuses connections", when, o.ln.Addr)
 						break
@@ -38,8 +40,12 @@ func checkRelation(rc *RunCtx, ms *mainSim, cfg *mCfg, U []*Key, sigPrefix, when
 				switch {
 				case want == "" && got != "":
 					rc.Failf(sigPrefix+"foreign-key-authenticated:"+o.ln.Type, "%s: key %s is not configured for listener %s but authenticated there as %q", when, k, lnKey(o.ln), got)
+				case want != "" && got == "" && wire != nil && freshRefusalExcused(rc, k, wire):
 				case want != "" && got == "":
 					rc.Failf(sigPrefix+"configured-key-rejected:"+o.ln.Type, "%s: key %s is configured for listener %s (as %q) but did not authenticate there", when, k, lnKey(o.ln), want)
+				case want != got && o.legacy && o.has(k, got):
+					// the statement fixes the id only for duplicates within a service
+					rc.Probe("legacy_duplicate_other_id")
 				case want != got:
 					rc.Failf(sigPrefix+"wrong-id:"+o.ln.Type, "%s: key %s on listener %s was attributed to %q, the first configured id with that cipher and secret is %q", when, k, lnKey(o.ln), got, want)
 				}
